@@ -282,6 +282,54 @@ def main():
     num_guarded = bool(re.search(r"DoubleSupport::lessThan\(theValue,\s*0\.5\)\s*==\s*true\s*\|\|\s*theValue\s*>=\s*double\(std::numeric_limits<CountType>::max\(\)\)\)", en))
     need(r"CountType\(DoubleSupport::round\(theValue\)\)", en, "ElemNumber: CountType(round(theValue))")
 
+    # XalanParsedURI::resolve, step 6 c)-g): the three decrements of the "../" handling are guarded, the erase calls have the modelled shape
+    pu = strip(read(os.path.join(SRC, "PlatformSupport", "XalanParsedURI.cpp")))
+    u0 = need(r"void\s+XalanParsedURI::resolve\(\s*const\s+XalanParsedURI\s*&\s*base", pu, "XalanParsedURI::resolve(base)").start()
+    u1 = pu.find("XalanDOMString& XalanParsedURI::resolve(", u0)
+    rs = pu[u0:u1 if u1 > 0 else len(pu)]
+    n_guarded = len(re.findall(r"if\s*\(\s*index\s*>\s*0\s*\)\s*--index\s*;", rs))
+    n_dec = len(re.findall(r"--index\b|\bindex--", rs))
+    n_scan = len(re.findall(r"for\s*\(\s*;\s*index\s*>\s*0\s*&&\s*m_path\[index-1\]\s*!=\s*XalanUnicode::charSolidus\s*;\s*index--\s*\)", rs))
+    if n_scan != 2:
+        die("XalanParsedURI::resolve: expected the two backward scans `for ( ; index > 0 && m_path[index-1] != '/'; index--)`, found %d" % n_scan)
+    if n_dec != n_guarded + n_scan:
+        uri_guarded = False     # a bare `--index`
+    else:
+        uri_guarded = n_guarded == 3
+    need(r"m_path\.erase\(index,\s*2\);\s*continue;", rs, "resolve: erase(index, 2) for './'")
+    need(r"m_path\.erase\(index,\s*1\);\s*continue;", rs, "resolve: erase(index, 1) for a trailing '.'")
+    if len(re.findall(r"const\s+XalanDOMString::size_type\s+end\s*=\s*index\s*\+\s*2\s*;", rs)) != 2 or len(re.findall(r"m_path\.erase\(index,\s*end\s*-\s*index\);\s*continue;", rs)) != 2:
+        die("XalanParsedURI::resolve: the two `end = index + 2 … erase(index, end - index)` blocks were not found")
+    need(r"for\s*\(XalanDOMString::size_type\s+index\s*=\s*0;\s*index\s*<\s*m_path\.length\(\);\s*\)", rs, "resolve: for (index = 0; index < m_path.length(); )")
+    need(r"index\s*<\s*m_path\.length\(\)-2\s*&&\s*m_path\[index\+1\]\s*==\s*XalanUnicode::charFullStop\s*&&\s*m_path\[index\+2\]\s*==\s*XalanUnicode::charSolidus", rs, "resolve: the '../' test")
+
+    # XalanParsedURI::parse(uriString, uriStringLen): every read of uriString is one of the modelled ones; the two tests that stand outside an
+    # `index < uriStringLen && …` chain either carry a bound of their own or rely on a terminating 0 behind the characters
+    p0 = need(r"void\s+XalanParsedURI::parse\(\s*const\s+XalanDOMChar\s*\*\s*uriString\s*,\s*XalanDOMString::size_type\s+uriStringLen\s*\)", pu, "XalanParsedURI::parse(uriString, uriStringLen)").start()
+    ps = pu[p0:u0]
+    if len(re.findall(r"while\s*\(\s*index\s*<\s*uriStringLen\s*&&", ps)) != 4:
+        die("XalanParsedURI::parse: expected four `while (index < uriStringLen && …)` scans")
+    if len(re.findall(r"if\s*\(\s*index\s*<\s*uriStringLen\s*&&\s*uriString\[index\]\s*==\s*XalanUnicode::char(?:QuestionMark|NumberSign)\s*\)", ps)) != 2:
+        die("XalanParsedURI::parse: the query / fragment tests `if (index < uriStringLen && uriString[index] == …)` were not found")
+    C = r"uriString\[index\]\s*==\s*XalanUnicode::charColon\s*\)"
+    if re.search(r"if\s*\(\s*index\s*>\s*0\s*&&\s*index\s*<\s*uriStringLen\s*&&\s*" + C, ps):
+        scheme_bounded = True
+    elif re.search(r"if\s*\(\s*index\s*>\s*0\s*&&\s*" + C, ps):
+        scheme_bounded = False
+    else:
+        die("XalanParsedURI::parse: the scheme test `if (index > 0 [&& index < uriStringLen] && uriString[index] == ':')` was not found")
+    A = r"\s*&&\s*uriString\[index\]\s*==\s*XalanUnicode::charSolidus\s*&&\s*uriString\[index\s*\+\s*1\]\s*==\s*XalanUnicode::charSolidus\s*\)"
+    if re.search(r"if\s*\(\s*index\s*\+\s*1\s*<\s*uriStringLen" + A, ps):
+        auth_bounded = True
+    elif re.search(r"if\s*\(\s*index\s*<\s*uriStringLen\s*-\s*1" + A, ps):
+        auth_bounded = False
+    else:
+        die("XalanParsedURI::parse: the authority test `if (index + 1 < uriStringLen | index < uriStringLen - 1 && … '/' && … '/')` was not found")
+    n_reads = len(re.findall(r"uriString\s*\[", ps))
+    if n_reads != 15:
+        die("XalanParsedURI::parse: %d reads `uriString[…]`, the model has 15" % n_reads)
+    uri_parse_bounded = scheme_bounded and auth_bounded
+
     # inventory (information)
     inv = []
     for rel in ANCHORED:
@@ -343,6 +391,10 @@ def main():
     L.append("def predicateCastGuarded : Bool := %s" % ("true" if pred_guarded else "false"))
     L.append("/-- ElemNumber tests `theValue >= double(numeric_limits<CountType>::max())` before `CountType(round(theValue))` -/")
     L.append("def numberValueCastGuarded : Bool := %s" % ("true" if num_guarded else "false"))
+    L.append("/-- XalanParsedURI::resolve: all three decrements of the \"../\" handling are written `if (index > 0) --index;` -/")
+    L.append("def uriDecrementsGuarded : Bool := %s" % ("true" if uri_guarded else "false"))
+    L.append("/-- XalanParsedURI::parse: the scheme test and the \"//\" test carry their own bound (`index < uriStringLen && uriString[index] == ':'`, `index + 1 < uriStringLen`) -/")
+    L.append("def uriParseBounded : Bool := %s" % ("true" if uri_parse_bounded else "false"))
     L.append("/-- XalanOutputStream::transcode: the retry loop stops when the transcoder made no progress (`else if (src == 0 && tgt == 0)`) -/")
     L.append("def transcodeNoProgressGuard : Bool := %s" % ("true" if guard else "false"))
     L.append("")
